@@ -40,6 +40,7 @@ type c18Scn struct {
 	Buf       int         `json:"buf"`
 	SlowEst   bool        `json:"slow_est,omitempty"`   // the Established callback takes a few milliseconds
 	Push      bool        `json:"push,omitempty"`       // an application goroutine keeps sending to every established client through its ServerChannel
+	TLS       bool        `json:"tls,omitempty"`        // the server also offers TLS (TCP listener with a TLS configuration): a negotiation stage takes place
 	Restart   bool        `json:"restart,omitempty"`    // startstop: the same Server is served a second time after its Close (socket listeners start again)
 	Odd       bool        `json:"odd,omitempty"`        // besides the clients: on every listener a peer whose only envelope is a session that cannot start one, gone at once
 	NoBacklog bool        `json:"no_backlog,omitempty"` // the queue between acceptors and consumer has no buffer (Backlog 0): a pure hand-off
@@ -125,6 +126,12 @@ func newC18Server(scn *c18Scn) (*c18Server, error) {
 	cfg.Node = serverNode
 	cfg.SchemeOpts = []lime.AuthenticationScheme{lime.AuthenticationSchemeGuest}
 	cfg.EncryptOpts = []lime.SessionEncryption{lime.SessionEncryptionNone}
+	var tcpCfg *lime.TCPConfig
+	if scn.TLS {
+		cfg.EncryptOpts = []lime.SessionEncryption{lime.SessionEncryptionNone, lime.SessionEncryptionTLS}
+		sc, _ := testTLS()
+		tcpCfg = &lime.TCPConfig{TLSConfig: sc}
+	}
 	cfg.ChannelBufferSize = scn.Buf
 	cfg.Backlog = 4
 	if scn.NoBacklog {
@@ -182,7 +189,7 @@ func newC18Server(scn *c18Scn) (*c18Server, error) {
 				return nil, err
 			}
 			s.addrs = append(s.addrs, a)
-			ls = append(ls, lime.NewBoundListener(lime.NewTCPTransportListener(nil), a))
+			ls = append(ls, lime.NewBoundListener(lime.NewTCPTransportListener(tcpCfg), a))
 		default:
 			a, err := freeTCPAddr()
 			if err != nil {
@@ -490,7 +497,16 @@ func c18Sessions(scn *c18Scn) c18Obs {
 				c.rawR = bufio.NewReader(c.raw)
 				_, _ = c.raw.Write([]byte("{\"state\":\"new\"}\n"))
 				_ = c.raw.SetReadDeadline(time.Now().Add(5 * time.Second))
-				_, _ = c.rawR.ReadString('\n') // the authentication request
+				line, _ := c.rawR.ReadString('\n') // the authentication request, or (TLS offered) the negotiation options
+				if scn.TLS && strings.Contains(line, "negotiating") {
+					// choose TLS, read the confirmation - and never begin the TLS handshake
+					var off struct {
+						ID string `json:"id"`
+					}
+					_ = json.Unmarshal([]byte(line), &off)
+					_, _ = c.raw.Write([]byte(fmt.Sprintf("{\"state\":\"negotiating\",\"id\":%q,\"encryption\":\"tls\",\"compression\":\"none\"}\n", off.ID)))
+					_, _ = c.rawR.ReadString('\n')
+				}
 			} else {
 				t, err := s.dial(ctx, spec.Kind)
 				if err != nil {
@@ -828,7 +844,7 @@ func maxInt(a, b int) int {
 func runC18(env *Env) error {
 	env.Header = "From Coq Require Import List Bool Arith.\nImport ListNotations.\nFrom Lime Require Import Base.Res Life.Handler Life.Server Corr.C18.\n"
 	env.ShardSize = 100
-	env.Rule = "real Server, each scenario in its own process: (startstop) ListenAndServe and Close racing at start-up, 1-3 listeners of every kind, repeated, also with a second serving period of the same Server; (gated) Close while the consumer is held before its select / while an acceptor holds an accepted transport (build-tag gates); (sessions) 1-8 clients over in-process, TCP and WebSocket in the phases idle, after traffic, sending while Close runs, stalled mid-handshake, failed authentication, finished earlier, vanished earlier, connecting while Close runs, optionally next to peers whose only envelope cannot start a session and who vanish at once; the queue between acceptors and consumer with 4 slots or none (Backlog 0). Non-trivial: a gated scenario, a start-up race with two or more listeners, or at least two clients. Distinct by printed scenario."
+	env.Rule = "real Server, each scenario in its own process: (startstop) ListenAndServe and Close racing at start-up, 1-3 listeners of every kind, repeated, also with a second serving period of the same Server; (gated) Close while the consumer is held before its select / while an acceptor holds an accepted transport (build-tag gates); (sessions) 1-8 clients over in-process, TCP and WebSocket in the phases idle, after traffic, sending while Close runs, stalled mid-handshake (also at the in-place TLS upgrade), failed authentication, finished earlier, vanished earlier, connecting while Close runs, optionally next to peers whose only envelope cannot start a session and who vanish at once; the queue between acceptors and consumer with 4 slots or none (Backlog 0). Non-trivial: a gated scenario, a start-up race with two or more listeners, or at least two clients. Distinct by printed scenario."
 	var rc c18Case
 	if ok, err := env.ReplayDesc(&rc); err != nil {
 		return err
@@ -873,6 +889,11 @@ func runC18(env *Env) error {
 	}
 	scns = append(scns, c18Scn{Kind: "sessions", Listeners: all, Buf: 4, Odd: true,
 		Clients: []c18Client{{Kind: "inproc", Phase: "idle"}, {Kind: "tcp", Phase: "traffic", Msgs: 2}}})
+	// Close while a TCP session sits at its in-place TLS upgrade (the peer chose TLS and does not begin the handshake)
+	scns = append(scns, c18Scn{Kind: "sessions", Listeners: []string{"tcp"}, Buf: 4, TLS: true,
+		Clients: []c18Client{{Kind: "tcp", Phase: "stalled"}, {Kind: "tcp", Phase: "idle"}}},
+		c18Scn{Kind: "sessions", Listeners: all, Buf: 4, TLS: true,
+			Clients: []c18Client{{Kind: "tcp", Phase: "stalled"}, {Kind: "tcp", Phase: "stalled"}, {Kind: "inproc", Phase: "traffic", Msgs: 2}}})
 	nmix := env.Pick(14, 80)
 	for m := 0; m < nmix; m++ {
 		n := 2 + env.Rng.Intn(env.Pick(4, 7))
